@@ -11,6 +11,7 @@ Inputs: `document q attrs kids` = START q, ATTR*, content, END q  (`Content` = f
 import XsdataModel.Proofs.Shape
 import XsdataModel.Proofs.Escape
 import XsdataModel.Proofs.QNameScope
+import XsdataModel.Spec.ObjectTree
 
 namespace Props.C03
 open Py Xs.Ns Xs.Sax Xs.Writer Spec.XmlNs Spec.EventTree Spec.Hyps
@@ -313,6 +314,33 @@ theorem writers_denote_same_tree_partial (lxmlRead : List Call → Option Node) 
 
 /-- the assumption is satisfiable (by the reading it names) -/
 example : LxmlBuildsSaxTree saxTree := fun _ _ h => h
+
+/-! ## The independent reading of the metadata (`Spec/ObjectTree.lean`): `Meta` is not inherited -/
+
+/-- **meta_not_inherited**: in the specification a class without a `Meta` of its own has no namespace
+of its own, whatever the `Meta` of its base class sets (seeded regression
+C03-cache-key-inherited-meta-r5 let the base's namespace count) … -/
+theorem meta_not_inherited (cls : Str) (mn : Option Str) (hasNs : Bool) (ns : Option Str)
+    (fs : List Spec.ObjectTree.FieldD) (base : Option Spec.ObjectTree.ModelD) :
+    Spec.ObjectTree.ownNs (.mk cls mn hasNs ns fs false base) = none := rfl
+
+/-- … and on the regression's document: `Holder{urn:h}.s : Sub(Base{urn:base})`, `Sub` without Meta —
+the inherited field `x` is in the namespace its declaring class's Meta sets, `Sub`'s own fields `y`, `z`
+in the namespace of the enclosing class -/
+theorem spec_subclass_fields_namespaces :
+    let el (n : Str) (typ : Option Spec.ObjectTree.ModelD) (l : Bool) : Spec.ObjectTree.FieldD :=
+      .elem n none none l false none typ
+    let base : Spec.ObjectTree.ModelD := .mk ['B'] none true (some ['u', 'r', 'n', ':', 'b']) [el ['x'] none false] true none
+    let sub : Spec.ObjectTree.ModelD := .mk ['S'] none false none [el ['y'] none false, el ['z'] none true] false (some base)
+    let holder : Spec.ObjectTree.ModelD := .mk ['H'] none true (some ['u', 'r', 'n', ':', 'h']) [el ['s'] (some sub) false] true none
+    Spec.ObjectTree.specRoot 8 holder
+        [(['s'], .obj [(['x'], .str ['1']), (['y'], .str ['2']), (['z'], .list [.str ['3']])])]
+      = .elem (some ['u', 'r', 'n', ':', 'h'], ['H']) []
+          [.elem (some ['u', 'r', 'n', ':', 'h'], ['s']) []
+            [.elem (some ['u', 'r', 'n', ':', 'b'], ['x']) [] [.text ['1']],
+             .elem (some ['u', 'r', 'n', ':', 'h'], ['y']) [] [.text ['2']],
+             .elem (some ['u', 'r', 'n', ':', 'h'], ['z']) [] [.text ['3']]]] := by
+  rfl
 
 /-! ## Prefix generation -/
 
